@@ -47,7 +47,9 @@ def gen_spec(rng, fmt):
             'sdate': year * 1000 + jday, 'stime': float(hour),
             'special': rng.random() < 0.5,
             # output interval in whole hours (daily files repeat the hour, only the date moves)
-            'dt': rng.choice([1, 1, 1, 3, 6, 24]),
+            'dt': rng.choice([1, 1, 1, 3, 6, 24, 48, 72]),
+            # a source that did not come from a CAMx reader has no ETFLAG variable
+            'etflag_in_source': rng.random() < 0.8,
             # variables need not have been created in VAR-LIST order
             'creation': rng.choice(['listed', 'listed', 'reversed', 'rotated']),
             # a computed source often carries float64 arrays (values representable in float32)
@@ -209,7 +211,7 @@ def build_source(spec, truth):
     for t, (dd, tt) in enumerate(truth['tflag']):
         tf[t, :, 0] = dd
         tf[t, :, 1] = tt
-    if truth['etflag'] is not None:
+    if truth['etflag'] is not None and spec.get('etflag_in_source', True):
         ef = f.createVariable('ETFLAG', 'i', ('TSTEP', 'VAR', 'DATE-TIME'))
         ef.units = '<YYYYDDD,HHMMSS>'
         ef.long_name = 'ETFLAG'.ljust(16)
@@ -595,10 +597,16 @@ def _judge_image(st, wr, path, which):
         return
     d = compare(truth, got, 'library reader on the %s image' % which)
     if d:
+        sig = {'format': fmt, 'field': d[0][0]}
+        if d[0][0] in ('etflag', 'tflag', 'header'):
+            sig['source_has_etflag'] = bool(spec.get('etflag_in_source', True))
+            sig['ends_in_next_year'] = truth['etflag'] is not None and \
+                truth['etflag'][-1][0] // 1000 != truth['tflag'][0][0] // 1000
         _raise(st, 'C08', 'round-trip-differs',
-               '%s file (%s, handle %s): %s' % (fmt, _desc(spec), wr['life'],
-                                                '; '.join(x[1] for x in d[:3])),
-               {'format': fmt, 'field': d[0][0]})
+               '%s file (%s, handle %s%s): %s' % (
+                   fmt, _desc(spec), wr['life'],
+                   '' if spec.get('etflag_in_source', True) else ', source without ETFLAG',
+                   '; '.join(x[1] for x in d[:3])), sig)
 
 
 def _desc(spec):
